@@ -163,7 +163,7 @@ def stop_scenarios(ctx, n, use_dask):
         sc = train_scenario(ctx, int(ctx.rng.integers(0, 8)))
         if not (sc["um"] or sc["uv"] or sc["uw"]):
             sc["um"] = True
-        cap = int(ctx.rng.integers(3, 9))
+        cap = int(ctx.rng.integers(3, 9)) if i % 5 else int(ctx.rng.integers(0, 3))  # incl. the boundary limits 0, 1, 2
         x = sc["x"]
         xin = da.from_array(x, chunks=(gen.random_composition(ctx.rng, len(x)), x.shape[1])) if use_dask else x
         full, _ = run_fit(sc, xin, cap, None)
@@ -172,8 +172,9 @@ def stop_scenarios(ctx, n, use_dask):
             continue
         conv = conv_values(full)
         choices = [None, 0.0]
-        j = int(ctx.rng.integers(0, len(conv)))
-        c = conv[j]
+        c = conv[int(ctx.rng.integers(0, len(conv)))] if conv else float("nan")
+        if not conv:
+            choices += [1e-3, 0.5]
         if np.isfinite(c):
             choices += [c * (1 + 1e-6), c * (1 - 1e-6)]
             if not use_dask:
@@ -293,7 +294,7 @@ def oracle_stop(sc, cap, thr, use_dask=False, sizes=None):
     xin = da.from_array(x, chunks=(tuple(sizes), x.shape[1])) if use_dask else x
     full, _ = run_fit(sc, xin, cap, None)
     if isinstance(full, core.ImplError):
-        return {"sig": "fit-raises", "what": repr(full)}
+        return {"sig": "fit-does-not-terminate" if full.kind == "DoesNotTerminate" else "fit-raises", "what": f"max_fitting_steps={cap}, no threshold: {full!r}"}
     if len(full) != cap:
         return {"sig": "no-threshold-run-wrong-length", "what": f"max_fitting_steps={cap}, threshold None: {len(full)} iterations"}
     crit, _ = run_fit(sc, xin, cap, thr)
